@@ -88,7 +88,10 @@ STMT_PRODS = {
     # of each group being the bare prefix; the prefix of the third group can be empty
     # (longer alternative first: when the smart undo leaves a group un-factorized the parser tries
     # the alternatives in this order and can only fall back inside the still open node)
-    'DECL': [('WORD', 'WORD', 'NUM'), ('WORD', 'WORD'), ('NUM', 'WORD'), ('NUM',),
+    # (the WORD group is nested: WORD [WORD [NUM]] | WORD STRING; in the NUM group a string literal - possibly the
+    # empty one - is the last token in front of an optional suffix)
+    'DECL': [('WORD', 'WORD', 'NUM'), ('WORD', 'WORD'), ('WORD', 'STRING'),
+             ('NUM', 'STRING', 'WORD'), ('NUM', 'STRING'), ('NUM', 'WORD'), ('NUM',),
              ('OPTP', 'STRING'), ('OPTP',)],
     'OPTP': [('(', ')'), ()],
 }
@@ -154,6 +157,9 @@ def gen_stmt(rng, depth=0):
             [("WORD", rng.choice(WORDS)), ("WORD", rng.choice(WORDS)), ("NUM", rng.choice(NUMS))],
             [("NUM", rng.choice(NUMS))],
             [("NUM", rng.choice(NUMS)), ("WORD", rng.choice(WORDS))],
+            [("WORD", rng.choice(WORDS)), ("STRING", rng.choice(STRS))],
+            [("NUM", rng.choice(NUMS)), ("STRING", rng.choice(STRS + ['""']))],
+            [("NUM", rng.choice(NUMS)), ("STRING", rng.choice(STRS + ['""'])), ("WORD", rng.choice(WORDS))],
             [], [("(", "("), (")", ")")], [("STRING", rng.choice(STRS))],
             [("(", "("), (")", ")"), ("STRING", rng.choice(STRS))],
         ]))
@@ -632,9 +638,83 @@ def run_case(ctx, cfg_id, pieces, smart=True):
         judge(ctx, cfg_id, pieces, form, case)
 
 
+NP_TOK = r"""(?P<SPACE>\s+)|(?P<A>a)|(?P<B>b)|(?P<C>c)|(?P<D>d)|(?P<E>e)|(?P<F>f)|"(?P<Q>[^"]*)"|(?P<SEMI>;)"""
+NP_TEMPLATES = [
+    [('A', 'B', 'C'), ('A', 'B', 'C', 'E'), ('A', 'F')],
+    [('A', 'B', 'C', 'E'), ('A', 'B', 'C'), ('A', 'F')],
+    [('A', 'B', 'C', 'D'), ('A', 'B', 'C'), ('A', 'B'), ('A', 'E')],
+    [('A', 'B', 'C', 'D'), ('A', 'B', 'C'), ('A', 'B'), ('A',)],
+    [('A', 'B', 'C'), ('A', 'B', 'D'), ('A', 'B', 'E'), ('A', 'B', 'F'), ('A', 'B', 'A'), ('A', 'B'), ('A', 'C')],
+    # a quoted string (its value may be the empty string) is the last token in front of an optional tail
+    [('A', 'Q', 'C'), ('A', 'Q')],
+    [('A', 'Q'), ('A', 'Q', 'C')],
+    [('A', 'Q', 'C'), ('A', 'Q'), ('B', 'Q', 'Q'), ('B', 'Q')],
+    [('Q', 'Q', 'A'), ('Q', 'Q'), ('Q',)],
+]
+_NP_PARSERS = {}
+
+
+def nested_prefix_case(ctx, rng):
+    """alternatives sharing prefixes, some of them nested: whatever the parser does with them internally, the node of X
+    spans from the start of its first token to the end of its last one - also when skipped text follows"""
+    k = rng.randrange(len(NP_TEMPLATES))
+    smart = rng.random() < 0.5
+    if (k, smart) not in _NP_PARSERS:
+        _NP_PARSERS[k, smart] = llparser.LLParser(
+            NP_TOK, productions={'S': [('X', 'SEMI')], 'X': list(NP_TEMPLATES[k])},
+            start_symbol_name='S', smart_factorization=smart)
+    parser = _NP_PARSERS[k, smart]
+    ctx.evaluated()
+    alts = [rng.choice(NP_TEMPLATES[k])]
+    text, line, col = "", 1, 1
+    spans = []
+
+    def put(piece):
+        nonlocal text, line, col
+        text += piece
+        for ch in piece:
+            if ch == "\n":
+                line, col = line + 1, 1
+            else:
+                col += 1
+    put(rng.choice(["", " ", "\n  "]))
+    for alt in alts:
+        start = end = None
+        for t in alt:
+            lex = rng.choice(['""', '"x y"', '""']) if t == 'Q' else t.lower()
+            if start is None:
+                start = (line, col)
+            put(lex)
+            end = (line, col)
+            put(rng.choice([" ", "  ", "\n", "\n\n   ", " \t "]))
+        spans.append((start, end))
+    put(";")
+    case = {"nested_prefix_template": k, "smart": smart, "text": text}
+    try:
+        root = parser.parse(text, do_cleanup=False)
+    except Exception as err:
+        ctx.violation("valid-text-rejected", {"type": type(err).__name__, "msg": str(err)[:200]}, case)
+        return
+    xs = [c for c in root.value if c.name == 'X']
+    ctx.count("nodes_over_nested_prefix_groups_checked", len(xs))
+    if len(xs) != len(spans):
+        ctx.violation("valid-text-rejected", {"msg": "tree has %d X nodes for %d alternatives" % (len(xs), len(spans))}, case)
+        return
+    for x, (start, end) in zip(xs, spans):
+        want_txt = slice_text(text, start, end)
+        got_txt = x.get_orig_text(text)
+        if x.span != (start, end) or got_txt != want_txt:
+            ctx.violation("inner-node-span-not-first-token-to-last-token",
+                          {"node": "X", "span": x.span, "expected": (start, end), "orig_text": got_txt[:40]}, case)
+            return
+
+
 def run_shard(ctx):
     for i in range(ctx.cases):
         rng = ctx.rng(i)
+        if i % 8 == 3:
+            for _ in range(4):
+                nested_prefix_case(ctx, rng)
         if i % 8 == 7:
             lines = gen_context_lines(rng)
             for form in ("str", "lines"):
@@ -682,6 +762,11 @@ def run_shard(ctx):
 
 
 def replay(ctx, case):
+    if "nested_prefix_template" in case:
+        import random
+        for k in range(400):
+            nested_prefix_case(ctx, random.Random(k))
+        return
     if case.get("kind") == "context-patterns":
         context_pattern_case(ctx, case["lines"], case["form"])
         return
